@@ -29,6 +29,8 @@ pub fn def() -> CheckDef {
 pub enum Damage {
     Xor { off: usize, mask: u8 },
     Set { off: usize, val: u8 },
+    /// the byte is doubled (`left`) or halved: a field that stays plausible (another power of two)
+    Shift { off: usize, left: bool },
     ZeroPage,
     Multi { seed: u64, count: u8, in_record: bool },
     /// bytes from `off` to the end of the page replaced: fill 0 zeros, 1 0xFF, 2 seeded, 3 previous contents of the page
@@ -151,6 +153,7 @@ pub fn apply(p: &Prepared, newest: bool, d: &Damage) -> (Vec<u8>, bool, bool) {
     match d {
         Damage::Xor { off, mask } => b[base + off] ^= mask,
         Damage::Set { off, val } => b[base + off] = *val,
+        Damage::Shift { off, left } => b[base + off] = if *left { b[base + off] << 1 } else { b[base + off] >> 1 },
         Damage::ZeroPage => {
             for x in &mut b[base..base + p.ps] {
                 *x = 0;
@@ -222,7 +225,20 @@ pub fn check_one(p: &Prepared, cfg: &Cfg, newest: bool, d: &Damage, path: &std::
     }
     let what = format!("{} header damaged by {:?}", if newest { "newest" } else { "older" }, d);
     let r = catch(|| -> Result<(), Failure> {
-        let db = open_db(cfg, path).map_err(|mut f| {
+        // a configuration that equals the library defaults is opened the way most applications do
+        // it: with plain `OpenOptions::new()`, no option set explicitly
+        let os_ps = unsafe { libc::sysconf(libc::_SC_PAGESIZE) } as u64;
+        let plain = cfg.pagesize == os_ps && cfg.num_pages == 32 && !cfg.strict && !cfg.populate;
+        let opened = if plain {
+            match catch(|| jammdb::OpenOptions::new().open(path)) {
+                Err(p) => Err(Failure::from_panic(p)),
+                Ok(Err(e)) => Err(Failure::new("open_err", format!("open (default options) failed: {}", e))),
+                Ok(Ok(db)) => Ok(db),
+            }
+        } else {
+            open_db(cfg, path)
+        };
+        let db = opened.map_err(|mut f| {
             f.msg = format!("{}: {}", what, f.msg);
             f
         })?;
@@ -276,6 +292,10 @@ pub fn damages(tier: Tier, ps: usize, seed: u64) -> Vec<Damage> {
         v.push(Damage::Xor { off, mask: 0x01 });
         v.push(Damage::Set { off, val: 0 });
         v.push(Damage::Set { off, val: r.next() as u8 });
+        if defined(off) {
+            v.push(Damage::Shift { off, left: true });
+            v.push(Damage::Shift { off, left: false });
+        }
         if tier == Tier::Thorough && defined(off) {
             for m in 2..=254u8 {
                 v.push(Damage::Xor { off, mask: m });
@@ -370,6 +390,7 @@ fn shard(ctx: &ShardCtx, known: &Known) -> ShardOut {
                         None => {}
                     }
                     classes.push(match d {
+                        Damage::Shift { .. } => "single byte doubled / halved (plausible field)".to_string(),
                         Damage::Xor { .. } | Damage::Set { .. } => "single byte".to_string(),
                         Damage::ZeroPage => "zeroed page".to_string(),
                         Damage::Multi { .. } => "multi-byte overwrite".to_string(),
